@@ -66,9 +66,11 @@ impl Field for Ed448ScalarField {
     }
 
     fn deserialize(buf: &Self::Serialization) -> Result<Self::Scalar, FieldError> {
-        match EdwardsScalar::from_canonical_bytes(buf.into()).into() {
-            Some(s) => Ok(s),
-            None => Err(FieldError::MalformedScalar),
+        match Option::<EdwardsScalar>::from(EdwardsScalar::from_canonical_bytes(buf.into())) {
+            // from_canonical_bytes() lets some encodings with a non-zero last byte through,
+            // so we check for canonicality by re-encoding and comparing
+            Some(s) if Self::serialize(&s) == *buf => Ok(s),
+            _ => Err(FieldError::MalformedScalar),
         }
     }
 
